@@ -137,6 +137,11 @@ class ExpandedTraceback:
         # Like the frames of the rendered traceback, the reported line refers
         # to the original file (e.g., when only a section of it was run).
         self.line_number = innermost_frame[1] + line_offsets.get(innermost_frame[0], 0)
+        if (isinstance(exception, SyntaxError) and isinstance(exception.lineno, int)
+                and innermost_frame[0] != exception.filename):
+            # Raised by the compiler, whose caller is the innermost frame:
+            # the position of the error is recorded in the exception itself.
+            self.line_number = exception.lineno + line_offsets.get(exception.filename, 0)
         self.original_code_lines = original_code_lines
         self.student_files = student_files
 
